@@ -169,6 +169,18 @@ func (e *Engine) VerifyFunc(fn *ssa.Function, ct *FuncContract) (obls []*Obligat
 			}
 		}
 		c.monitorExit(fr, out, ct)
+		if len(c.freshObjs) > 0 && len(c.globalClauses()) > 0 && len(out.held) == 0 {
+			// objects created here become reachable for others when the function returns
+			unpub := false
+			for _, r := range c.freshObjs {
+				if !c.isPublished(r) {
+					unpub = true
+				}
+			}
+			if unpub {
+				c.assertGlobal(out, nil, "exit")
+			}
+		}
 		// every program point named by the contract must exist in the current code (no silently vacuous clause)
 		for pt := range ct.Asserts {
 			if !c.pointsHit[FuncKey(fn)+"|"+pt] {
